@@ -11,7 +11,8 @@ PROPS = {
             "through that path; and that non-forced fusion is dominated by the peak-memory test. "
             "These are dominator / reaching-definition / call-graph facts and hold for every plan, "
             "memory setting and executor, which sampling tests cannot show."
-        ),
+                " FUSE-TWINLIST-1: the predecessor list shown to the admission test of fusion is built by the same expression as the list that is fused (no filter, no de-duplication on the test's side); MULTI-EDGE-1 / CHUNKMEM-1 as under C03."
+    ),
         note=(
             "Necessary conditions only. Does not decide the truth of projected_mem itself (C03). "
             "Executors are opaque after the entry call; third-party libraries behave as documented."
@@ -51,6 +52,7 @@ PROPS["C08"] = dict(
         "empty, and the thread retrier re-raises after retries+1 attempts. These hold for every schedule of "
         "completions, including the same-round interleavings that tests with real timers never hit."
             " Also: the original<->backup map is only ever changed symmetrically (MAP-TWIN-SYM-1), the batch refill sits between the wait and the next loop test, and the user's `retries` option reaches the retrier unmodified; the superseded check guards the re-raise as well as the emission (a twin handled earlier in the same round is not handled again). A failed task is set aside exactly when its twin exists and is still running or finished without exception (truth table over done()/exception()); the twin is marked delivered unconditionally; futures that are submitted are awaited (MAP-SUBMIT-1); the scheduling code never divides by an elapsed time (SCHED-DIV-1)."
+            ' BATCH-COVER-1: the batching helper the map draws from hands out every input (no zip() grouper that drops the last short batch).'
     ),
     note="Does not decide timing thresholds of should_launch_backup, hangs inside asyncio, or IO fault behaviour of zarr/fsspec.",
     design="DESIGN.md §4 C08",
@@ -143,6 +145,7 @@ PROPS["C12"] = dict(
         "from those chunks; multiple outputs are paired positionally; and no code swaps the backing array "
         "afterwards (the one site that does, _store_array, is known finding F5)."
             " Identity-copy operations (BlockView, store) declare chunks derived from the source's actual block sizes (.chunks), never the nominal chunk size. A dtype/chunks/shape declared for an operation from one of its own operands is read from the operand as passed, not from a local alias taken before the operand variable was rebound (META-STALE-1)."
+            ' META-PAIR-1: declared chunks that were normalised are normalised against the declared shape itself.'
     ),
     note=(
         "Does NOT decide the second half — that every block a function returns has the shape of its region, "
@@ -162,6 +165,7 @@ PROPS["C18"] = dict(
         "check is a whole-object for-all equality raising ValueError; that every Spec constructor parameter "
         "takes part in __eq__; that allowed_mem/reserved_mem given to the primitives are exactly the checked "
         "spec's; and that the size parser uses decimal SI exponents and raises on every other form."
+            ' EXEC-EQ-1: every executor keeps its constructor options in `kwargs`, which is what DagExecutor.__eq__ (and through it Spec.__eq__) compares.'
     ),
     note="Does not decide exactness of float parsing for integers above 2**53 given as strings (arithmetic fact, noted in DESIGN.md).",
     design="DESIGN.md §4 C18",
